@@ -1,6 +1,7 @@
 //! One module per property: alphabet, bounds, monitors, oracle.
 pub mod selftest;
 pub mod c01;
+pub mod c03;
 
 use serde_json::Value;
 
@@ -8,6 +9,7 @@ pub fn run(id: &str, tier: &str) -> i32 {
     match id {
         "C01" => c01::run(tier, false),
         "C10" => c01::run(tier, true),
+        "C03" => c03::run(tier),
         _ => {
             eprintln!("MACHINERY unknown property {}", id);
             2
@@ -47,6 +49,7 @@ pub fn replay(id: &str, path: &str) -> i32 {
 fn replay_one(id: &str, v: &Value) -> Option<String> {
     match id {
         "C01" | "C10" => c01::replay(v, id == "C10"),
+        "C03" => c03::replay(v),
         _ => Some(format!("no replay driver for {}", id)),
     }
 }
